@@ -248,10 +248,11 @@ def r6_shutdown_observed(ctx, F):
             # calls through which a closed market makes this worker stop: pop() returns an empty batch,
             # is_open() is branched on, split_and_push() empties the caller's queue when the market is
             # closed (so the next lap pops an empty batch) - the last one only if its summary holds
-            names = ['JobBroker::pop', 'JobBroker::is_open']
+            import roles
+            names = ['pop', 'is_open']
             if split_clears_when_closed(F):
-                names.append('JobBroker::split_and_push')
-            readers = [c.bb for c in w.calls_to(*names)]
+                names.append('split_and_push')
+            readers = [c.bb for c in roles.calls_role(F, w, *names)]
             for sw in w.switches:
                 if sw.on.kind == 'call':
                     c = w.call_at(sw.on.key)
@@ -267,8 +268,10 @@ def r6_shutdown_observed(ctx, F):
 
 def split_clears_when_closed(F):
     """callee summary: on the `open == false` path split_and_push clears the caller's queue"""
-    b = F.bodies.get('job_market::JobBroker::<Job>::split_and_push')
-    if b is None:
+    import roles
+    try:
+        b = roles.jm(F, 'split_and_push')
+    except AnchorMissing:
         return False
     fe = []
     for sw in b.switches:
